@@ -340,6 +340,11 @@ def differential(rep, cases, dbs, configs, name, batch_size=150, timeout=120, de
             if undef:
                 rep.add("batch_runs_aborted_by_undefined_member")
                 continue
+            if classify:
+                kfs = [classify(c, db, cfg, None, "exit") for c in batches[bi]]
+                if kfs and all(kfs):
+                    rep.known_finding(kfs[0], batches[bi][0].desc)
+                    continue
             nattrib += 1
             if nattrib > 3:
                 rep.violation("batch %d failed (rc=%s) under %s: %s" % (bi, rc, cfg.name, se[-300:]),
